@@ -82,7 +82,7 @@ PROPS = {
         "assumptions": DOC_ASSUME,
     },
     "C11": {
-        "partial": 'buffer sizes are tokenizer behaviour (same event list): validated by execution over six BufReader capacities',
+        "partial": 'buffer sizes and expand_empty_elements are tokenizer behaviour: modelled (Model/Lexer.v: a BufReader of any capacity delivers lex bs, the expanding reader expand (lex bs)) and compared with the real reader on the inputs of every run (six capacities); the byte-level theorems C11_bytes_* of Properties/Lexer.v are about that model',
         "prop_files": ["C11", "DomEquiv", "EventLevel"],
         "corr": ["CoreCorr", "CharCorr", "ReparseCorr"],
         "projection": "events, tree, dom, bytes",
@@ -100,7 +100,7 @@ PROPS = {
         "assumptions": DOC_ASSUME,
     },
     "C08": {
-        "partial": "the reader's notion of a syntax error is the oracle the property names (EErr events of the recorded stream); the theorems relate the nested consumer to a flat scan of that stream",
+        "partial": "the reader's notion of a syntax error is the oracle the property names (EErr events of the recorded stream); the theorems relate the nested consumer to a flat scan of that stream; for the default configuration the reader itself is modelled (Model/Lexer.v, compared with quick_xml on the inputs of every run) and Properties/Lexer.v states the property for every BYTE STRING (LEX_no_stray_end, C08_bytes_parse_err_iff, C08_bytes_position); error payloads are not modelled, only their kind and position",
         "corr": ["CoreCorr", "CharCorr", "ReparseCorr"],
         "projection": "tree (or error class, payload and position)",
         "level": "proof",
